@@ -448,7 +448,10 @@ def compare(it, op, a, b, node):
                 diffs = [(x, y) for x, y in zip(a.items, b.items) if dim_of(x) != dim_of(y)]
                 if len(diffs) == 1 and num_term(diffs[0][0]) is not None and num_term(diffs[0][1]) is not None:
                     return VNum("bool", T.app("cmp_" + op, num_term(diffs[0][0]), num_term(diffs[0][1])))
-            return VUnknown("shape-eq", "bool")
+            u = VUnknown("shape-eq", "bool")
+            u.operands, u.negated = (a, b), op == "NotEq"
+            _eq_term(it, u, a, b)
+            return u
         return VConst(r if op == "Eq" else not r)
     if op in ("Eq", "NotEq") and isinstance(a, VUnknown) and isinstance(b, VUnknown) and a.kind == b.kind and a.kind in ("dtype", "device", "layout") and a.tag == b.tag:
         return VConst(op == "Eq")  # the dtype / device of one tensor (or of its clone) equals itself
@@ -463,7 +466,24 @@ def compare(it, op, a, b, node):
             return VConst(op != "Eq")  # a floating-point dtype is not bool / an integer dtype
     if isinstance(a, VUnknown) and a.kind == "shape" or isinstance(b, VUnknown) and b.kind == "shape":
         return VUnknown("shape-eq", "bool")
-    return VUnknown("cmp", "bool")
+    u = VUnknown("cmp", "bool")
+    if op in ("Eq", "NotEq"):
+        u.operands, u.negated = (a, b), op == "NotEq"
+        _eq_term(it, u, a, b)
+    return u
+
+
+def _eq_term(it, u, a, b):
+    """An equality test of two followed values is the same question only when asked of the same two values: name it by them
+    (numbered per interpretation), so that a decision taken for other values is not reused for these."""
+    from .values import fingerprint
+
+    fa, fb = fingerprint(a), fingerprint(b)
+    if fa is None or fb is None:
+        return
+    reg = it.__dict__.setdefault("_fp_ids", {})
+    ia, ib = reg.setdefault(fa, len(reg)), reg.setdefault(fb, len(reg))
+    u.term = T.app("cmp_Eq", T.sym("value#%d" % ia), T.sym("value#%d" % ib))
 
 
 def tuple_eq(a, b):
